@@ -15,7 +15,7 @@ import sx
 from checks import inclib, loadlib
 
 PROP = 'C16'
-TARGETS = ['theories/Proofs/IncludeProofs.v', 'theories/Run/RunLoad.v']
+TARGETS = ['theories/Proofs/IncludeProofs.v', 'theories/Run/RunLoad.v', 'theories/Proofs/ProvenanceProofs.v', 'theories/Proofs/SpliceProofs.v']
 
 # oracle tag (inclib.problems) -> known-finding key; tags that are not part of the statement are dropped
 TAG_KEY = {
